@@ -296,6 +296,48 @@ fn main() {
     emit(format!("(ax {} {} {})", fs(&[1.0, 2.0]), fs(&[3.0]), fs(&[0.5, 0.5])));          // unequal parents
     emit(format!("(ax {} {} {})", fs(&[1.0, 2.0]), fs(&[3.0, 4.0]), fs(&[1.5, -0.5])));    // alpha outside [0,1]
 
+    // ---- 5b. large inputs for every helper (a size-dependent path must not go unnoticed): lengths 8..64
+    let big = if a.thorough { 1500 } else { 150 };
+    for _ in 0..big {
+        let n = *rng.pick(&[8usize, 9, 12, 15, 16, 17, 24, 31, 32, 33, 48, 64]);
+        let l: Vec<usize> = (0..n).map(|i| 1000 + i).collect();
+        // circular swaps: tuple lengths from 2 up to n (all positions)
+        let k = match rng.below(4) { 0 => 2, 1 => n, 2 => n - 1, _ => rng.range(2, n as u64) as usize };
+        let mut pool: Vec<usize> = (0..n).collect();
+        let mut t = vec![];
+        for _ in 0..k { t.push(pool.remove(rng.below(pool.len() as u64) as usize)); }
+        emit(format!("(cswap {} {})", vs(&l), vs(&t)));
+        // translocation: valid triples incl. the boundaries (slice at the very start / very end, empty, whole)
+        let s = match rng.below(4) { 0 => 0, 1 => n - 1, _ => rng.below(n as u64) as usize };
+        let e = match rng.below(4) { 0 => n, 1 => s, _ => rng.range(s as u64, n as u64) as usize };
+        let room = n - (e - s);
+        let i = match rng.below(4) { 0 => 0, 1 => room.min(n - 1), _ => rng.range(0, room.min(n - 1) as u64) as usize };
+        emit(format!("(transl {} {} {} {})", vs(&l), s, e, i));
+        emit(format!("(transl {} {} {} {})", vs(&l), s, e, room + 1));      // just violating the assertion
+        // multi-point / uniform crossover on tagged parents
+        let p1: Vec<usize> = (0..n).map(|i| 1000 + i).collect();
+        let p2: Vec<usize> = (0..n).map(|i| 2000 + i).collect();
+        let kc = match rng.below(3) { 0 => 1, 1 => n - 1, _ => rng.range(1, n as u64 - 1) as usize };
+        let mut pool: Vec<usize> = (0..=n).collect();
+        let mut cuts = vec![];
+        for _ in 0..kc { cuts.push(pool.remove(rng.below(pool.len() as u64) as usize)); }
+        emit(format!("(mpx {} {} {})", vs(&p1), vs(&p2), vs(&cuts)));
+        let mask: Vec<bool> = (0..n).map(|_| rng.chance(1, 2)).collect();
+        emit(format!("(ux {} {} {})", vs(&p1), vs(&p2), bs(&mask)));
+        // cycle crossover: few long cycles and many short ones
+        let mut q1: Vec<usize> = (0..n).map(|i| 50 + 3 * i).collect();
+        let mut q2 = q1.clone();
+        for i in (1..n).rev() { q1.swap(i, rng.below(i as u64 + 1) as usize); }
+        if rng.chance(1, 2) { for i in (1..n).rev() { q2.swap(i, rng.below(i as u64 + 1) as usize); } }
+        else { q2 = q1.clone(); for _ in 0..rng.range(1, 4) { let (x, y) = (rng.below(n as u64) as usize, rng.below(n as u64) as usize); q2.swap(x, y); } }
+        emit(format!("(cx {} {})", vs(&q1), vs(&q2)));
+        // arithmetic crossover
+        let f1: Vec<f64> = (0..n).map(|_| (rng.unit() - 0.5) * 20.0).collect();
+        let f2: Vec<f64> = (0..n).map(|_| (rng.unit() - 0.5) * 20.0).collect();
+        let al: Vec<f64> = (0..n).map(|_| if rng.chance(1, 4) { *rng.pick(&alphas) } else { rng.unit() }).collect();
+        emit(format!("(ax {} {} {})", fs(&f1), fs(&f2), fs(&al)));
+    }
+
     // ---- 6. components
     comp::generate(&a, &mut rng, &mut emit);
     out.finish();
